@@ -11,6 +11,19 @@ BASE_NOTE = ("Trusted base: rustc front end/MIR construction as dumped by engine
              "crates assumed total. ")
 
 CLAIMS = {
+    "C14": dict(
+        category="other",
+        technique="abstract interpretation of the board's methods on interval cells and single flag configurations",
+        text=("The board's setters are interpreted abstractly on cells: float intervals incl. the NaN cell and both infinities for "
+              "the clamping rule (stored = argument inside 0-5 V, 5 V above, 0 V below and for non-numbers), the whole byte "
+              "range for the DAC law constant, separated intervals for the comparator refresh after each of the five operations "
+              "that move a comparator input (incl. max(input 2, temperature)), all direction/level combinations for the UIO and "
+              "jumper bits, all 144 combinations of source x polarity x old level x new level x selected/other for the edge "
+              "interrupt of the six sources (comparators moved by their analog input and by a DAC write), and interval cells "
+              "for the fan period law."),
+        note=("One genuine defect found and fixed (fan period was constantly 0). Not decided: exact float rounding of /100.0, "
+              "comparator ties, interleaving-dependent flag histories beyond the per-operation shape."),
+        design="3/C14"),
     "C12": dict(
         category="other",
         technique="abstract interpretation of the runner loop against logging stand-ins (loop unrolling); cell-wise abstract interpretation of verify; data-flow checks of the CLI glue",
